@@ -553,6 +553,24 @@ def check_determinism_taint(ck, R):
                   "the rule key is built from __qualname__ without the symbol: two module-level lambdas used by one function share the key "
                   "'...:<lambda>', only one of them (which one depends on the hash seed) is hashed, so the version differs between processes "
                   "and edits to the other are never seen", f2.where(c))
+    # __qualname__ is not unique for lambdas ('<lambda>') nor for closures of one factory
+    # ('make.<locals>.inner'): where a helper appends the symbol only conditionally, the condition
+    # must cover both markers
+    fnm = ck.repo.try_func(CH + ".NonMementoFunctionHashRule._function_name")
+    if fnm is not None:
+        f3 = FA(ck, fnm)
+        appends = [s_ for s_ in f3.stmts(ast.AugAssign) if "symbol" in A.names_in(s_.value)]
+        okm = False
+        for s_ in appends:
+            g = f3.enclosing(s_, ast.If)
+            if g is None:
+                okm = True
+            else:
+                marks = set(A.strings_in(g.test))
+                okm = {"<lambda>", "<locals>"} <= marks
+        ck.ob(R, f3.key(None, "non-unique-qualnames"), okm, "the symbol is appended for every function whose qualified name is not unique (<lambda>, <locals>)" if okm else
+              "the symbol is appended to the rule key only for some non-unique qualified names: two closures made by one factory (or two lambdas) "
+              "used by one function still share a key, so the version depends on the hash seed", f3.where())
     ck.need(sinks >= 4, "determinism taint: only %d digest sinks found" % sinks)
 
 
@@ -688,6 +706,14 @@ def check_update_protocol(ck, R):
                 ok_d = False
     ck.ob(R, fa.key(None, "reference-refreshed"), ok_d, "the function reference is rebuilt whenever the calculated version is set" if ok_d else
           "the calculated version can change without rebuilding the function reference: calls keep addressing the old version's entries", fa.where())
+    # a version is only ever adopted from this instance's own evaluation of its rules: an instance
+    # that never evaluated them (unregistered wrapper, fresh object) cannot vouch that nothing changed
+    for s_ in asg:
+        d_ = fa.deps(s_.value)
+        own = "call:_recompute_version" in d_
+        ck.ob(R, fa.key(s_, "version-from-own-evaluation"), own, "the calculated version comes from this instance's own recomputation" if own else
+              "`%s` adopts a version from the shared cache without evaluating any rule: an unregistered wrapper (empty rule list) keeps that "
+              "version for ever, also after a tracked variable changed" % A.short(s_, 60), fa.where(s_))
     neq = [n for n in cfg.nodes if n.kind == "test" and A.norm(n.ast) == "self._calculated_version != version"]
     ck.ob(R, fa.key(None, "adopts-new-version"), len(neq) == 1, "a differing recomputed version is adopted" if len(neq) == 1 else
           "the updater does not compare the calculated version with the recomputed one", fa.where())
@@ -825,6 +851,14 @@ def check_resolver_closures(ck, R):
                   "(class re-executed, module attribute rebound) the rule keeps looking at the old object and did_change never fires" % bad,
                   A.loc(v.fi, node))
     ck.need(n_res >= 2, "_visit_dependency: resolver closures not found")
+    # rules that watch for a symbol to appear must also look it up from the root each time
+    for c in v.calls("UndefinedSymbolHashRule"):
+        base = c.args[0] if c.args else A.kwarg(c, "ref")
+        rr = A.kwarg(c, "ref_resolver")
+        pinned = isinstance(base, ast.Name) and base.id in derived and rr is None
+        ck.ob(R, v.key(c, "undefined-symbol-base"), not pinned, "the undefined-symbol rule re-resolves the object it watches" if not pinned else
+              "the undefined-symbol rule is given `%s`, an object obtained while evaluating the chain, and no resolver: after `helper = other` the rule "
+              "still asks the OLD object whether the attribute appeared, so the version never changes" % base.id, v.where(c))
 
 
 def check_field_call_lint(ck, R):
